@@ -15,7 +15,8 @@ ITEMS = ["part_size_formula", "closing_size_formula", "size None guard", "write 
          "_binary_headers shape", "chunk_size", "boundary_len_formula", "content_eof_exceeded",
          "window_search_start", "delimiter prefix", "first_chunk_strip", "fill loop test", "overflow test",
          "base64_char", "max_boundary_len", "reader boundary prefix", "default_max_field_size",
-         "default_max_headers", "too_many_headers", "over_client_max", "read loop shape"]
+         "default_max_headers", "too_many_headers", "over_client_max", "read loop shape",
+         "base64 token test (case-insensitive)", "nested reader inherits limits"]
 
 MP = "aiohttp/multipart.py"
 
@@ -288,6 +289,33 @@ def _reader_items():
                "if len(data) > self._client_max_size:\n    raise self._max_size_error_cls(self._client_max_size)"]
     if [_u(s) for s in loops[0].body] != want_rd:
         raise TranslatorError("BodyPartReader.read: loop body changed (limit must be tested inside the loop)")
+    # read_chunk: quartet alignment is switched on by the Content-Transfer-Encoding token, case-insensitively
+    rc = core.find_function(MP, "read_chunk", cls="BodyPartReader")
+    txt = [_u(n) for n in rc.body]
+    if "encoding = self.headers.get(CONTENT_TRANSFER_ENCODING)" not in txt:
+        raise TranslatorError("read_chunk: the Content-Transfer-Encoding lookup changed")
+    want_al = "if encoding and encoding.lower() == 'base64':\n    chunk = self._align_base64_chunk(chunk, len(carry) + want)"
+    if want_al not in txt:
+        raise TranslatorError("read_chunk: the base64 test must be `encoding and encoding.lower() == 'base64'` guarding _align_base64_chunk")
+    # _get_part_reader: a nested multipart reader is built with all four settings of its parent
+    gp = core.find_function(MP, "_get_part_reader", cls="MultipartReader")
+    calls = [n for n in ast.walk(gp) if isinstance(n, ast.Call) and any(k.arg == "client_max_size" for k in n.keywords)]
+    nested = [c for c in calls if _u(c.func) != "self.part_reader_cls"]
+    if not nested:
+        raise TranslatorError("_get_part_reader: no nested reader construction found")
+    for c in nested:
+        kws = {k.arg: _u(k.value) for k in c.keywords}
+        if [_u(a) for a in c.args] != ["headers", "self._content"] or kws != {
+                "client_max_size": "self._client_max_size", "max_field_size": "self._max_field_size",
+                "max_headers": "self._max_headers", "max_size_error_cls": "self._max_size_error_cls"}:
+            raise TranslatorError("_get_part_reader: the nested reader must be built with (headers, self._content) and the parent's "
+                                  "client_max_size, max_field_size, max_headers, max_size_error_cls: " + _u(c))
+    leaf = [c for c in calls if _u(c.func) == "self.part_reader_cls"]
+    if len(leaf) != 1 or {k.arg: _u(k.value) for k in leaf[0].keywords} != {
+            "subtype": "self._mimetype.subtype", "default_charset": "self._default_charset",
+            "client_max_size": "self._client_max_size", "max_size_error_cls": "self._max_size_error_cls"} \
+            or [_u(a) for a in leaf[0].args] != ["self._boundary", "headers", "self._content"]:
+        raise TranslatorError("_get_part_reader: the body part reader construction changed")
     return out
 
 
@@ -336,4 +364,7 @@ def generate() -> str:
     o.append("(* _read_headers: `if len(lines) > self._max_headers`; read: `if len(data) > self._client_max_size` inside the loop *)")
     o.append("Definition too_many_headers (nlines maxh : N) : bool := (maxh <? nlines).")
     o.append("Definition over_client_max (datalen maxsize : N) : bool := (maxsize <? datalen).")
+    o.append("(* read_chunk: `encoding and encoding.lower() == 'base64'`; _get_part_reader passes the parent's limits to a nested reader *)")
+    o.append("Definition base64_token_case_insensitive : bool := true.")
+    o.append("Definition nested_reader_inherits_limits : bool := true.")
     return "\n".join(o) + "\n"
